@@ -115,6 +115,7 @@ enum Canned {
     Echo(String),
     Sum,
     Coin(f64, String),
+    When(String, String, f64),
 }
 
 struct CannedRule {
@@ -142,6 +143,10 @@ impl RuleTrait for CannedRule {
                 Some(TokenType::Number(s, NumberType::Decimal))
             }
             Canned::Coin(v, cur) => config.get_currency(cur.to_string()).map(|c| TokenType::Money(*v, c)),
+            Canned::When(f, w, v) => match fields.get(f) {
+                Some(TokenType::Text(s)) if s == w => Some(TokenType::Number(*v, NumberType::Decimal)),
+                _ => None
+            },
         }
     }
 }
@@ -226,8 +231,11 @@ fn do_op(st: &mut State, op: &Value) -> Value {
             json!({"ok":true})
         }
         "cfg" => {
+            // the two separator setters are independent calls: either order must give the same configuration
+            let thou_first = op.get("order").and_then(|v| v.as_str()) == Some("thou-first");
+            if thou_first { if let Some(v) = op.get("thou") { st.calc.set_thousand_separator(v.as_str().unwrap().to_string()); } }
             if let Some(v) = op.get("dec") { st.calc.set_decimal_seperator(v.as_str().unwrap().to_string()); }
-            if let Some(v) = op.get("thou") { st.calc.set_thousand_separator(v.as_str().unwrap().to_string()); }
+            if !thou_first { if let Some(v) = op.get("thou") { st.calc.set_thousand_separator(v.as_str().unwrap().to_string()); } }
             if let Some(v) = op.get("num") { st.calc.set_number_configuration(v[0].as_u64().unwrap() as u8, v[1].as_bool().unwrap(), v[2].as_bool().unwrap()); }
             if let Some(v) = op.get("pct") { st.calc.set_percentage_configuration(v[0].as_u64().unwrap() as u8, v[1].as_bool().unwrap(), v[2].as_bool().unwrap()); }
             if let Some(v) = op.get("money") { st.calc.set_money_configuration(v[0].as_bool().unwrap(), v[1].as_bool().unwrap()); }
@@ -250,6 +258,7 @@ fn do_op(st: &mut State, op: &Value) -> Value {
                 "echo" => Canned::Echo(op["field"].as_str().unwrap().to_string()),
                 "sum" => Canned::Sum,
                 "coin" => Canned::Coin(parse_f64(&op["v"]), op["cur"].as_str().unwrap().to_string()),
+                "when" => Canned::When(op["field"].as_str().unwrap().to_string(), op["word"].as_str().unwrap().to_string(), parse_f64(&op["v"])),
                 k => panic!("unknown canned kind {}", k),
             };
             let pats: Vec<String> = op["patterns"].as_array().unwrap().iter().map(|p| p.as_str().unwrap().to_string()).collect();
